@@ -400,27 +400,9 @@ theorem parseSheet_noFuel (vfs : Vfs) (href : Str) (raw : Sheet) : (parseSheet v
   have := unvisited_le vfs [href]
   exact setHref_noFuel vfs .user (vfs.length + 2) [href] hr m (by omega) he
 
-/-- … nor does the re-fetch that `CSSStyleSheet.add` does for an @import whose target was not found -/
-theorem addRule_noFuel (vfs : Vfs) (th : Str) (target : Sheet) (r : Rule) :
-    (addRule vfs th target r).val ≠ .error .fuel := by
-  cases r with
-  | imp href media found t s =>
-    simp only [addRule]
-    split
-    · simp
-    · split
-      · rename_i e he
-        intro h; simp at h; subst h
-        have := unvisited_le vfs [th]
-        exact setHref_noFuel vfs .dflt (vfs.length + 2) [th] href media (by omega) he
-      · simp
-  | charset e => simp only [addRule]; split <;> simp
-  | ns p u => simp only [addRule]; repeat' split; all_goals simp
-  | comment _ => simp [addRule]
-  | style _ _ => simp [addRule]
-  | media _ _ => simp [addRule]
-  | page _ _ _ => simp [addRule]
-  | fontface _ => simp [addRule]
-  | unknown _ => simp [addRule]
+/-- … nor does the re-fetch that `CSSStyleSheet.add` does for an @import whose target was not found, nor anything
+else in `resolveImports`: the model's answers never depend on the fuel -/
+theorem resolveImports_noFuel (vfs : Vfs) (href : Str) (sheet : Sheet) :
+    (resolveImports vfs href sheet).val ≠ .error .fuel := resolveRules_ne_fuel vfs sheet href []
 
 end CssVerif.C19
